@@ -219,11 +219,12 @@ def units(prop, tier):
 
     def u(name, targets, bs, state=None, params=None, tag=''):
         uid = 'cmac.%s%s@bs%d%s' % (name, tag, bs, ('/' + state) if state else '')
+        w = 3 if name in ('update', '__init__', '_update') else 2 if name == 'digest' else 1      # long units first
         if params:
             assert len(targets) == 1
-            out.append(pyvc_unit(prop, uid, functools.partial(_reg_with, targets[0], params, bs, state), targets))
+            out.append(pyvc_unit(prop, uid, functools.partial(_reg_with, targets[0], params, bs, state), targets, weight=w))
         else:
-            out.append(pyvc_unit(prop, uid, functools.partial(registry, bs, state), targets))
+            out.append(pyvc_unit(prop, uid, functools.partial(registry, bs, state), targets, weight=w))
     m = lambda x: CM + '.' + x        # noqa
     if prop == 'C03':
         for bs in (16, 8):
@@ -254,9 +255,12 @@ def units(prop, tier):
                 u('update', [m('update')], 8, st, {'msg': 'bytes'}, '[bytes]')
     elif prop == 'C10':
         for st in STATES:
+            if quick and st == 'uad_fresh':
+                continue                        # quick: absorbing / digested (update refused) / uad_digested (update allowed again)
             u('update', [m('update')], 16, st, {'msg': 'bytes'}, '[bytes]')
-            u('digest', [m('digest')], 16, st)
-            u('verify', [m('verify')], 16, st, {'mac_tag': 'bytes'})
+            if not (quick and st == 'uad_digested'):
+                u('digest', [m('digest')], 16, st)
+                u('verify', [m('verify')], 16, st, {'mac_tag': 'bytes'})
             u('copy', [m('copy')], 16, st)
     elif prop == 'C19':
         for bs in (16, 8):
